@@ -198,12 +198,21 @@ func (w *world) gitignored(o options, leafPath string) bool {
 			}
 			base = len(ds)
 		}
+		// within one file the last matching line decides; a line starting with '!' re-includes
+		ignored := false
 		for _, line := range splitLines(content) {
+			neg := len(line) > 0 && line[0] == '!'
+			if neg {
+				line = line[1:]
+			}
 			for i := base; i < len(segs); i++ {
 				if giMatch(line, segs[i], i < len(segs)-1) {
-					return true
+					ignored = !neg
 				}
 			}
+		}
+		if ignored {
+			return true
 		}
 	}
 	return false
@@ -377,7 +386,9 @@ func VerifSkipRules() {
 	w.check(o, inv, err)
 }
 
-var rootGI = []string{"", "a.pkg", "d/", "*.pkg", "e", "b.pkg\nz.pkg"}
+// negations only name the root-level file a.pkg, so that no other .gitignore's patterns interact
+// with them (precedence between files is not part of the reference)
+var rootGI = []string{"", "a.pkg", "d/", "*.pkg", "e", "b.pkg\nz.pkg", "*.pkg\n!a.pkg", "*.pkg\n!a.pkg\n*.pkg"}
 var dGI = []string{"", "b.pkg", "e/", "e", "c.pkg", "*.pkg", "a.pkg"}
 
 // VerifGitignore: .gitignore files at the root and in d, gitignore handling on/off.
